@@ -6,7 +6,7 @@
 
   so the notation determines the path: injectivity (`c19_dotpath_go_injective`, and again
   `c19_dotpath_esc_injective'`) is a corollary, for paths with negative ints too (`[-1]`), and with
-  the pending ToDotPath fix for elements of every other type (read as the key their text is).
+  ToDotPath as it stands (6ff3a13) for elements of every other type (read as the key their text is).
 
       path    := ε | first rest*
       first   := ident | bracket
@@ -285,7 +285,7 @@ theorem length_le_dotChars (p : List El) : p.length ≤ (dotCharsGo p).length :=
     simp only [dotCharsGo, dotCharsWith, List.length_cons, List.length_append]
     omega
 
-/-- **round trip, Go paths**: what ToDotPath (with the pending fix for other element types) writes
+/-- **round trip, Go paths**: what ToDotPath (since 6ff3a13, for other element types too) writes
     for ANY path parses back to the path — elements of other types as the keys their text is -/
 theorem c19_parse_dotpath_go (p : List El) : parseDotGo (dotPathGo p) = some (p.map El.dnorm) := by
   unfold parseDotGo dotPathGo
@@ -359,24 +359,24 @@ theorem c19_dotpath_esc_injective' (p q : List Seg) (h : dotPathEsc p = dotPathE
   rw [h, c19_parse_dotpath q] at hp
   exact (Option.some.inj hp).symm
 
-/-! ## the code as it stands: other element types are written `[%v]` raw -/
+/-! ## the code before 6ff3a13: other element types were written `[%v]` raw -/
 
 /-- witness: `int64(0)` (a map key) prints like the index 0, yet TreeifyError/FormatError file them apart;
     a value whose text is `"a.b"` prints like the key a.b -/
-theorem cur_dotpath_other_conflates :
-    dotPathCur [.other "0"] = dotPathCur [.int 0] ∧ dotPathCur [.other "\"a.b\""] = dotPathCur [.str "a.b"] := by
+theorem old_dotpath_other_conflates :
+    dotPathOld [.other "0"] = dotPathOld [.int 0] ∧ dotPathOld [.other "\"a.b\""] = dotPathOld [.str "a.b"] := by
   decide
 
-/-- … and on typed paths (strings, ints) the code as it stands IS the fixed code, so the round trip
-    and injectivity hold of it there (PARTIAL statement for /repo HEAD) -/
-theorem dotPathCur_typed (p : List El) (hp : p.all El.typed = true) : dotPathCur p = dotPathGo p := by
-  have hs : ∀ first (e : El), e.typed = true → segDotCur first e = segDotGo first e := by
+/-- … and on typed paths (strings, ints) the old code IS the current code, so the round trip
+    and injectivity held of it there (PARTIAL statement for the code before 6ff3a13) -/
+theorem dotPathOld_typed (p : List El) (hp : p.all El.typed = true) : dotPathOld p = dotPathGo p := by
+  have hs : ∀ first (e : El), e.typed = true → segDotOld first e = segDotGo first e := by
     intro first e he
     cases e with
     | other s => simp [El.typed] at he
     | str k => rfl
     | int z => rfl
-  have hr : ∀ r : List El, r.all El.typed = true → dotRestWith segDotCur r = dotRestWith segDotGo r := by
+  have hr : ∀ r : List El, r.all El.typed = true → dotRestWith segDotOld r = dotRestWith segDotGo r := by
     intro r hr
     induction r with
     | nil => rfl
@@ -387,18 +387,18 @@ theorem dotPathCur_typed (p : List El) (hp : p.all El.typed = true) : dotPathCur
   | nil => rfl
   | cons e r =>
     simp only [List.all_cons, Bool.and_eq_true] at hp
-    simp [dotPathCur, dotPathGo, dotCharsGo, dotCharsWith, hs true e hp.1, hr r hp.2]
+    simp [dotPathOld, dotPathGo, dotCharsGo, dotCharsWith, hs true e hp.1, hr r hp.2]
 
-theorem c19_cur_dotpath_partial (p q : List El) (hp : p.all El.typed = true) (hq : q.all El.typed = true)
-    (h : dotPathCur p = dotPathCur q) : p = q := by
-  rw [dotPathCur_typed p hp, dotPathCur_typed q hq] at h
+theorem c19_old_dotpath_partial (p q : List El) (hp : p.all El.typed = true) (hq : q.all El.typed = true)
+    (h : dotPathOld p = dotPathOld q) : p = q := by
+  rw [dotPathOld_typed p hp, dotPathOld_typed q hq] at h
   exact c19_dotpath_typed_injective p q hp hq h
 
-def c19_cur_dotpath_full : Prop := ∀ p q : List El, dotPathCur p = dotPathCur q → p.map El.dnorm = q.map El.dnorm
+def c19_old_dotpath_full : Prop := ∀ p q : List El, dotPathOld p = dotPathOld q → p.map El.dnorm = q.map El.dnorm
 
-theorem c19_cur_dotpath_full_false : ¬ c19_cur_dotpath_full := by
+theorem c19_old_dotpath_full_false : ¬ c19_old_dotpath_full := by
   intro h
-  have := h [.other "0"] [.int 0] cur_dotpath_other_conflates.1
+  have := h [.other "0"] [.int 0] old_dotpath_other_conflates.1
   revert this; decide
 
 end Gozod.C19
